@@ -344,7 +344,16 @@ fn hist_case(r: &mut Rng) -> Case {
     }
 }
 
-fn gen_case(seed: u64, idx: u64) -> Case {
+/// Position in the case list -> logical case index.  Three of every four positions are taken by the
+/// exhaustive enumeration (logical 0..EXHAUSTIVE) until it is used up (position 2094), the others by the
+/// random stream (logical EXHAUSTIVE..): the cheap and the expensive cases are spread over all shards.
+fn logical(pos: u64) -> u64 {
+    let a = 3 * (pos / 4) + (pos % 4).min(3);
+    if pos % 4 < 3 && a < EXHAUSTIVE { a } else { EXHAUSTIVE + pos - a.min(EXHAUSTIVE) }
+}
+
+fn gen_case(seed: u64, pos: u64) -> Case {
+    let idx = logical(pos);
     if idx < EXHAUSTIVE { return exhaustive_case(idx); }
     let mut r = Rng::for_case(seed, idx);
     if idx % 10 < 7 { random_alg_case(&mut r) } else { hist_case(&mut r) }
